@@ -201,8 +201,41 @@ pub fn run(ctx: &mut Ctx) {
     let strings = name_strings();
     let mut rng = ctx.rng(0xC17);
     let g = Gen { names: &names, max_depth: 4, max_arity: 4, placeholders: true, set_bias: false };
-    // (1) every constructor x every fixed string, and x component lists of length 0..=4
     let mut idx = 0usize;
+    // (0) fixed-arity terms whose components are (still) bare placeholders, and lists of exactly their
+    // arity: appending must fail and change nothing, whatever the components are
+    {
+        let fixed: Vec<Kind> = [Kind::Neg, Kind::DiffExt, Kind::DiffInt].iter().chain(BINORD_STATEMENT_KINDS.iter()).chain(BINSYM_KINDS.iter()).copied().collect();
+        for k in fixed {
+            let arity = if k == Kind::Neg { 1 } else { 2 };
+            for filler in 0..3usize {
+                let kid = |i: usize| match filler {
+                    0 => TD::placeholder(),
+                    1 => if i == 0 { TD::placeholder() } else { TD::word("A") },
+                    _ => TD::word(["A", "B"][i % 2]),
+                };
+                let t = if arity == 1 { TD::comp(k, vec![kid(0)]) } else { TD::bin(k, kid(0), kid(1)) };
+                for len in 0..=3usize {
+                    idx += 1;
+                    if !ctx.mine(idx) {
+                        continue;
+                    }
+                    let cs: Vec<TD> = (0..len).map(|j| if (j + filler) % 2 == 0 { TD::word("new") } else { TD::placeholder() }).collect();
+                    ctx.report.eval();
+                    ctx.report.bump("push_components.fixed-arity-with-placeholders");
+                    ctx.report.nontrivial(&format!("push|{}|{}", t.canon(), len));
+                    if let Some(w) = push_failure(&t, &cs) {
+                        ctx.report.violate(
+                            format!("C17|push|{}|fixed-arity", t.k.tag()),
+                            format!("{} (term {}, pushing {:?})", w, t.canon(), cs.iter().map(|c| c.canon()).collect::<Vec<_>>()),
+                            J::obj().set("op", "push_components").set("term", t.to_json()).set("components", J::Arr(cs.iter().map(|c| c.to_json()).collect())).set("why", w.clone()),
+                        );
+                    }
+                }
+            }
+        }
+    }
+    // (1) every constructor x every fixed string, and x component lists of length 0..=4
     let rounds = if ctx.thorough { 40 } else { 4 };
     for round in 0..rounds {
         let mut r2 = crate::rng::Rng::new(ctx.seed ^ (round as u64) << 8 ^ 0x17);
